@@ -161,6 +161,43 @@ def run(world, rep, tier, only=None):
                "inode-number conditions under which a multiply-claimed inode does not reach the un-mark: %s; not allowed: %s" %
                ([("" if t else "!") + T.pp(a)[:40] for t, a in inobased], bad))
 
+    # ------------------------------------------------------------------ C02.e a block number equal to the block count is out of range
+    # Valid block numbers are [s_first_data_block, blocks_count).  Every range test of e2fsck compares a block number
+    # with ext2fs_blocks_count() exclusively (`blk >= count` is bad, `blk < count` is good); the inclusive forms
+    # belong to ends (start + len) and to counts only.  One site that is off by one lets a pointer to the block just
+    # past the end through every pass.
+    from vlib import width as _w
+    n_cmp = 0
+    for f in prog.functions():
+        if not f.file.startswith("e2fsck/"):
+            continue
+        done = set()
+        for line, ex_ in _w._exprs_of(f):
+            for x in T.walk(ex_):
+                if not (isinstance(x, dict) and x.get("k") == "b" and x.get("o") in ("<", "<=", ">", ">=")):
+                    continue
+                for side, other in (("l", "r"), ("r", "l")):
+                    s_ = T.strip(x.get(side))
+                    if not (isinstance(s_, dict) and s_.get("k") == "c" and s_.get("fn") == "ext2fs_blocks_count"):
+                        continue
+                    o = x["o"] if side == "r" else {"<": ">", ">": "<", "<=": ">=", ">=": "<="}[x["o"]]
+                    oth = resolve_local(f, x.get(other))
+                    key = (line, T.pp(x)[:60])
+                    if key in done:
+                        continue
+                    done.add(key)
+                    n_cmp += 1
+                    txt = T.pp(oth)
+                    o0 = T.strip(oth)
+                    is_sum = isinstance(o0, dict) and o0.get("k") == "b" and o0.get("o") in ("+", "-", "*")
+                    is_count = T.const(oth) is not None or any(w_ in txt for w_ in ("count", "num_", "_max", "len"))
+                    if is_sum or is_count:
+                        rep.examined()
+                        continue
+                    rep.ob("C02.e", site(f, "block number compared exclusively with the block count (line %d)" % line),
+                           o in (">=", "<"), "`%s`: a block number is bad when it is >= ext2fs_blocks_count()" % T.pp(x)[:70])
+    rep.floor("C02.e comparisons with ext2fs_blocks_count() in e2fsck", n_cmp, 15)
+
 
 def _aborts_after(prog, fn, n):
     """every path from the call to the function's exit passes ctx->flags |= E2F_FLAG_ABORT or a noreturn call"""
@@ -194,7 +231,9 @@ def fix_problem_rules(world, prog, rep, rule):
         (not t and lit_tests_bit(a, "PR_NO_OK", "flags")) or
         (not t and _is_prompt_none(a)) or (t and T.last_field(a) == ("e2fsck_problem", "prompt")) or
         (not t and lit_tests_bit(a, "PR_FATAL", "flags")) or
-        (t and T.path(a) == "ptr") or (not t and _ptr_null(a)))
+        (t and T.path(a) == "ptr") or (not t and _ptr_null(a)) or
+        # the lookup of the problem code in problem_table[] (find_problem, wherever its loop is written)
+        ("e2fsck_problem", "e2p_code") in T.fields(a))
     for u in um:
         lits = control_lits(fp, u)
         extra = [(t, a) for (t, a) in lits if not allowed(t, a)]
